@@ -110,11 +110,13 @@ def initClaims (claimed : Bool) (br br' : BR) : Bool :=
 
 /-- C11.iv: when the plane reports the scaling event for a `Progressing` release whose plan is neither completed, finalizing,
     changed nor unhealthy, the reconcile restarts the batch (`Upgrading`, ready time cleared), records the new size and
-    stops before acting.  `scaled` = the plane's `SyncWorkloadInformation` says `WorkloadReplicasChanged` with these replicas. -/
+    stops before acting.  `scaled` = the plane's `SyncWorkloadInformation` says `WorkloadReplicasChanged` with these replicas
+    (which differ from the recorded ones: that is what the event means). -/
 def scalingRestarts (scaled : Option Int) (br br' : BR) : Bool :=
   match scaled with
   | some r =>
-    if br.status.phase = .progressing ∧ ¬ isPlanFinalizing br ∧ ¬ isPlanChanged br ∧ ¬ isPlanUnhealthy br then
+    if br.status.phase = .progressing ∧ ¬ isPlanFinalizing br ∧ ¬ isPlanChanged br ∧ ¬ isPlanUnhealthy br ∧
+       br.status.observedReplicas ≠ r then
       br'.status.batchState = .upgrading && !br'.status.hasReadyTime && decide (br'.status.observedReplicas = r) &&
       br'.status.phase = .progressing && decide (br'.status.currentBatch = br.status.currentBatch)
     else true
